@@ -1109,6 +1109,8 @@ def extract_gibbs_skeleton(funcs, fn):
             if re.fullmatch(r"\(initial_state if overwrite else initial_state\.clone\(\)\)\.to\(self\.weights(_W)?\)", " ".join(ast.unparse(st.value).split())):
                 regs[name] = "RV"
                 continue
+            if regs.get(name) == "RV" and " ".join(ast.unparse(st.value).split()) == name + ".contiguous()":
+                continue                   # dense working memory (a strided start state is copied, written back below)
             m = re.fullmatch(r"torch\.zeros\(\*%s\.shape\[:-1\], self\.num_(hidden|aux)\)\.to\(self\.weights(_W)?\)" % re.escape(next((k for k, v in regs.items() if v == "RV"), "v")),
                              " ".join(ast.unparse(st.value).split()))
             if m:
@@ -1120,10 +1122,11 @@ def extract_gibbs_skeleton(funcs, fn):
                 raise Untranslatable("the sampling loop is not `for _ in range(k)`")
             loop, stage = st, 1
             continue
-        if stage == 1 and isinstance(st, ast.If) and not st.orelse and len(st.body) == 1 \
+        if stage == 1 and isinstance(st, ast.If) and not st.orelse and len(st.body) in (1, 2) \
                 and " ".join(ast.unparse(st.test).split()).replace("(", "").replace(")", "") == "overwrite and v is not initial_state and v.device == initial_state.device" \
-                and ast.unparse(st.body[0]) == "initial_state.copy_(v)":
-            continue                       # write-back when .to() had to copy (storage model: Gibbs.gibbs_call)
+                and ast.unparse(st.body[0]) == "initial_state.copy_(v)" \
+                and (len(st.body) == 1 or " ".join(ast.unparse(st.body[1]).split()) == "if initial_state.dtype == v.dtype: return initial_state"):
+            continue                       # write-back when .to() / .contiguous() had to copy (storage model: Gibbs.gibbs_call)
         if stage == 1 and isinstance(st, ast.Return) and st.value is not None and regs.get(ast.unparse(st.value)) == "RV":
             stage = 2
             continue
